@@ -129,6 +129,16 @@ def make_prepare(subject, state):
         state["n"] += 1
         seed = state["seed"] + 7919 * state["n"]
         aw.randomise(child, seed)
+        if state["n"] % 4 == 0:
+            # a user may hold part of a (pre-trained) network fixed: frozen tensors are weights like any other and have to be
+            # carried over by the re-creation as well
+            import torch.nn as nn
+
+            ps = list(nn.Module.parameters(child))
+            for j, prm in enumerate(ps):
+                if (j + state["n"]) % 3 == 0:
+                    prm.requires_grad_(False)
+            state["frozen_edges"] = state.get("frozen_edges", 0) + 1
         x = subject.batch(3, seed % 100003)
         snap = {
             "params": {k: v.detach().clone() for k, v in aw.named_params(child).items()},
@@ -390,6 +400,7 @@ def run_case(case):
         rec.hit("star_edges_from_initial_configuration", stats["star_edges"])
         rec.hit("walk_distinct_architectures", stats["distinct_states"])
         rec.extra["walk"] = {"methods": stats["methods"], "aborted": stats["aborted"]}
+    rec.hit("edges_with_frozen_parameters", int(state.get("frozen_edges", 0)))
     rec.hit("edges_architecture_changed", tally.get("changed", 0))
     rec.hit("edges_architecture_unchanged", tally.get("noop", 0))
     rec.nontrivial = tally.get("resized", 0) > 0 and tally.get("noop", 0) > 0 and tally.get("clone", 0) > 0
